@@ -142,6 +142,7 @@ def thorough_extra(prop, module, ctx):
                 results.append({"variant": label, "outcome": "skipped (patch no longer applies)"})
                 continue
             fv = None
+            cv = None
             try:
                 fv = F.extract(ndebug=True, repo=scratch)
                 cv = Ctx(prop, "thorough", fv)
@@ -151,7 +152,13 @@ def thorough_extra(prop, module, ctx):
                 results.append({"variant": label, "outcome": "detected" if bad else "MISSED",
                                 "reported": ["%s %s" % (o.rule, o.instance) for o in bad[:3]]})
             except AnalysisBroken as e:
-                results.append({"variant": label, "outcome": "no verdict (analysis broken)", "reason": str(e)[:200]})
+                # as in the main path: obligations that failed before the analysis was cut short are a verdict of their own
+                known_keys = {k["key"] for k in load_known() if k.get("property") == prop and k.get("status") == "known"}
+                bad = [o for o in cv.obs if not o.ok and (o.key or "") not in known_keys] if "cv" in dir() and cv is not None else []
+                if bad:
+                    results.append({"variant": label, "outcome": "detected", "reported": ["%s %s" % (o.rule, o.instance) for o in bad[:3]], "then": str(e)[:120]})
+                else:
+                    results.append({"variant": label, "outcome": "no verdict (analysis broken)", "reason": str(e)[:200]})
             finally:
                 if fv is not None:
                     fv.discard()
